@@ -16,6 +16,8 @@ UNIONS = [
     ('a8+u32', ['[u8; 8]', 'u32', 'u64'], 8, '', ''),
     ('a16x', ['[u16; 4]', 'u8'], 8, '', ''),
     ('a6', ['[u16; 3]', 'u16'], 6, '', ''),
+    ('five', ['u32', '[u8; 4]', 'u16', '[u16; 2]', 'u8'], 4, '', ''),
+    ('a16', ['[u8; 16]', 'u64', '[u32; 4]', 'u128'], 16, '', ''),
     ('G', ['T', '[u8; 2]'], 2, '<T: Copy>', '<u16>'),
     ('G2', ["&'a [T; 0]", 'usize'], 8, "<'a, T: Copy>", "<'static, u16>"),
 ]
